@@ -2,6 +2,7 @@
 # tools/confirm_rt.sh <ID> <checks...>  - re-verify a red-team deliverable in its scratch worktree (demo passes without the
 # change, fails with it), then store it as /verif/seeded/rt-<ID>/ with meta.json
 ID=$1; shift
+PFX=${RT_PREFIX:-rt}
 D=/tmp/rt/$ID
 id=$(echo $ID | tr A-Z a-z)
 source $D/env.sh
@@ -15,7 +16,7 @@ echo "== with change"; /venv/bin/python kit/build/build.py harness demo_$id --qu
 git -C wt checkout -- .
 echo "clean rc=$rc_clean changed rc=$rc_changed"
 if [ $rc_clean -eq 0 ] && [ $rc_changed -ne 0 ]; then
-  S=/verif/seeded/rt-$ID; mkdir -p $S
+  S=/verif/seeded/$PFX-$ID; mkdir -p $S
   cp out/patch.diff $S/patch.diff; cp out/demo.cpp $S/demo.cpp; cp out/README.md $S/README.md 2>/dev/null
   checks=$(printf '"%s",' "$@"); checks="[${checks%,}]"
   /venv/bin/python - <<PY
@@ -24,7 +25,7 @@ prop="$ID"
 json.dump({"property": prop, "origin": "independent red-team sub-agent (given only the property text and a scratch worktree)",
            "needs": open("$D/out/README.md").read()[:1200] if __import__("os").path.exists("$D/out/README.md") else "",
            "confirmed": "demo exits 0 on the unchanged tree (rc=$rc_clean) and non-zero with the change (rc=$rc_changed), re-run by tools/confirm_rt.sh",
-           "checks": json.loads('$checks'), "ran": "tools/seeded.py rt-$ID"}, open("$S/meta.json", "w"), indent=1)
+           "checks": json.loads('$checks'), "ran": "tools/seeded.py $PFX-$ID"}, open("$S/meta.json", "w"), indent=1)
 PY
   echo "stored $S"
 else
